@@ -228,7 +228,8 @@ FloatSpell(v) ==
       [] v = <<1, 8>> -> {<<48,46,49,50,53>>, <<49,50,53,101,45,51>>}                              \* 0.125 125e-3
 BoolSpell == [t |-> {<<116,114,117,101>>, <<84,114,117,101>>, <<49>>, <<116>>, <<84>>},             \* true True 1 t T
               f |-> {<<102,97,108,115,101>>, <<70,65,76,83,69>>, <<48>>, <<102>>, <<70>>}]          \* false FALSE 0 f F
-StrVals == {<<>>, <<97,98,99>>, <<104,233,108,108,111>>, <<97,61,98>>, <<120,32,121>>, <<45,45,120>>, <<128512>>}  \* "" abc he'llo a=b "x y" --x emoji
+StrVals == {<<>>, <<97,98,99>>, <<104,233,108,108,111>>, <<97,61,98>>, <<120,32,121>>, <<45,45,120>>, <<128512>>,
+            <<47,109,121,95,97,112,112,46,108,111,103>>, <<97,45,98,95,99>>}        \* /my_app.log a-b_c  \* "" abc he'llo a=b "x y" --x emoji
 DtVals == {<<2020, 2, 29, 13, 5, 59>>, <<2020, 2, 29, 13, 5, 0>>, <<1999, 12, 31, 0, 0, 0>>, <<1900, 1, 1, 23, 59, 58>>,
            <<1900, 1, 1, 7, 30, 0>>, <<2038, 1, 19, 3, 14, 7>>, <<2000, 1, 1, 0, 0, 0>>}
 DtSpell(v) == {DtText(v, i) : i \in {i \in 1..10 : DtFits(v, i)}}
@@ -269,7 +270,7 @@ MultiParts(type) ==
     IF type = "int" THEN {<<49>>, <<55>>, <<45,50>>, <<49,58,51>>, <<53,58>>, <<51,58,49>>, <<45,49,58,49>>, <<58,53>>, <<120>>, <<>>,
                           <<48>>, <<45,50,58,48>>, <<48,58,48>>, <<48,58,50>>, <<45,51,58,45,50>>}
                          \* 1 7 -2 1:3 5: 3:1 -1:1 :5 x ""  0 -2:0 0:0 0:2 -3:-2  (bounds equal to 0, negative bounds)
-    ELSE IF type = "str" THEN {<<97>>, <<>>, <<98,32,99>>, <<49,58,51>>}                 \* a "" "b c" 1:3 (no range for str)
+    ELSE IF type = "str" THEN {<<97>>, <<>>, <<98,32,99>>, <<49,58,51>>, <<120,95,121,45,122>>}     \* ... x_y-z                 \* a "" "b c" 1:3 (no range for str)
     ELSE IF type = "float" THEN {<<49,46,53>>, <<51>>, <<46,53>>, <<97,98,99>>}                             \* 1.5 3 .5 abc
     ELSE IF type = "bool" THEN {<<116,114,117,101>>, <<48>>}                                                \* true 0
     ELSE IF type = "datetime" THEN {<<50,48,50,48,45,48,50,45,50,57>>, <<49,51,58,48,53>>, <<121,101,115,116,101,114,100,97,121>>}
